@@ -739,6 +739,9 @@ func generateHard(g *core.Gen) {
 			q := *p
 			q.PowLimit = lim
 			q.PowLimitBits = blockchain.BigToCompact(lim)
+			if r.Bool() { // the cap must use PowLimit itself, not the value of PowLimitBits
+				q.PowLimitBits = blockchain.BigToCompact(new(big.Int).Add(new(big.Int).Rsh(lim, 1), big.NewInt(1)))
+			}
 			p = &q
 		}
 		for j := range hs {
